@@ -117,6 +117,48 @@ def install(spec: Spec):
             ex.oblige('callsite:events_to_remove.extend#%d(%s)/requires' % (k, L), label, ex.spec_bool(expr, env), ['C13'])
         ex.st.flags['extends_seen'] = ex.st.flags.get('extends_seen', 0) + 1
 
+    def _sf_pos(ex, d, k):
+        keys, n, has, val, idx = ex.dict_parts(d)
+        from pyvc.values import to_smt as _ts, coerce as _co
+        return mk_int(z3.Select(idx, _ts(_co(k, d.ty.args[0]))))
+    spec.specfuns['pos'] = _sf_pos
+    H_ = 'self.event_history'
+
+    def ids_facts(L):
+        # the ids collected in a class list are history keys met so far, in history order - hence pairwise distinct
+        return [(L + '_ids_in_history_order', "forall(lambda k1, k2: implies(0 <= k1 and k1 < k2 and k2 < len(%s), pos(%s, %s[k1][0]) < pos(%s, %s[k2][0])))" % (L, H_, L, H_, L), ['C13']),
+                (L + '_ids_below_the_cursor', "forall(lambda k: implies(0 <= k and k < len(%s), pos(%s, %s[k][0]) < loop_i))" % (L, H_, L), ['C13'])]
+
+    STATUS_OF = {'pending_events': "%s.event_status == 'pending'", 'started_events': "%s.event_status == 'started'",
+                 'completed_events': "(%s.event_status != 'pending' and %s.event_status != 'started')"}
+
+    def sort_post(L):
+        def hook(ex, n, r):
+            env = dict(ex.st.env)
+            st = STATUS_OF[L] % (((L + '[k][1]'),) * STATUS_OF[L].count('%s'))
+            for label, expr in [
+                ('sorted_entries_are_the_class_entries', "forall(lambda k: implies(0 <= k and k < len(%s), %s and %s[k][0] in %s and %s[%s[k][0]] is %s[k][1]))" % (L, st, L, H_, H_, L, L)),
+                ('sorted_ids_still_distinct', "forall(lambda k1, k2: implies(0 <= k1 and k1 < k2 and k2 < len(%s), %s[k1][0] != %s[k2][0]))" % (L, L, L)),
+            ]:
+                ex.oblige('callsite:%s.sort/ensures' % L, label, ex.spec_bool(expr, env), ['C13'])
+        return hook
+
+    def extend_post(ex, n, r):
+        """after the k-th extend: everything collected so far is a history key, pairwise distinct, and of the classes extended so far"""
+        calls = [c for c in _ast.walk(ex.fn_node) if isinstance(c, _ast.Call) and _ast.unparse(c.func) == 'events_to_remove.extend']
+        calls.sort(key=lambda c: (c.lineno, c.col_offset))
+        k = [i for i, c in enumerate(calls) if c is n][0]
+        env = dict(ex.st.env)
+        E = 'events_to_remove'
+        clauses = [('collected_ids_are_history_keys', "forall(lambda t: implies(0 <= t and t < len(%s), %s[t] in %s))" % (E, E, H_)),
+                   ('collected_ids_are_distinct', "forall(lambda t1, t2: implies(0 <= t1 and t1 < t2 and t2 < len(%s), %s[t1] != %s[t2]))" % (E, E, E))]
+        if k == 0:
+            clauses.append(('collected_so_far_neither_pending_nor_started', "forall(lambda t: implies(0 <= t and t < len(%s), %s[%s[t]].event_status != 'pending' and %s[%s[t]].event_status != 'started'))" % (E, H_, E, H_, E)))
+        elif k == 1:
+            clauses.append(('collected_so_far_not_pending', "forall(lambda t: implies(0 <= t and t < len(%s), %s[%s[t]].event_status != 'pending'))" % (E, H_, E)))
+        for label, expr in clauses:
+            ex.oblige('callsite:events_to_remove.extend#%d/ensures' % k, label, ex.spec_bool(expr, env), ['C13'])
+
     CLASS_OF = {'pending_events': "== 'pending'", 'started_events': "== 'started'"}
     PART_INV = [('partition_counts', 'len(pending_events) + len(started_events) + len(completed_events) == loop_i', ['C13']),
                 ('pending_are_pending', "forall(lambda k: implies(0 <= k and k < len(pending_events), pending_events[k][1].event_status == 'pending' and pending_events[k][0] in self.event_history "
@@ -129,14 +171,14 @@ def install(spec: Spec):
             locals={'pending_events': 'list[tuple[str,BaseEvent]]', 'started_events': 'list[tuple[str,BaseEvent]]', 'completed_events': 'list[tuple[str,BaseEvent]]',
                     'events_to_remove': 'list[str]'},
             modifies=[('event_history', 'self')],
-            callsites={'events_to_remove.extend': {'pre': extend_pre}},
-            loops={0: {'inv': PART_INV},
+            callsites={'events_to_remove.extend': {'pre': extend_pre, 'post': extend_post},
+                       'completed_events.sort': {'post': sort_post('completed_events')}, 'started_events.sort': {'post': sort_post('started_events')},
+                       'pending_events.sort': {'post': sort_post('pending_events')}},
+            loops={0: {'inv': PART_INV + ids_facts('pending_events') + ids_facts('started_events') + ids_facts('completed_events')},
                    1: {'inv': [('one_entry_removed_per_id', 'len(self.event_history) == len(loop_old(self.event_history)) - loop_i', ['C13']),
                                ('remaining_ids_still_present', 'forall(lambda t: implies(loop_i <= t and t < len(loop_seq), loop_seq[t] in self.event_history))', ['C13']),
-                               ],
-                       'assume_entry': [('LEMMA_removed_ids_are_distinct_history_keys',
-                                         'forall(lambda t: implies(0 <= t and t < len(loop_seq), loop_seq[t] in self.event_history)) and '
-                                         'forall(lambda t1, t2: implies(0 <= t1 and t1 < t2 and t2 < len(loop_seq), loop_seq[t1] != loop_seq[t2]))')]}},
+                               ('removed_ids_are_distinct', 'forall(lambda t1, t2: implies(0 <= t1 and t1 < t2 and t2 < len(loop_seq), loop_seq[t1] != loop_seq[t2]))', ['C13']),
+                               ]}},
             ensures=[('bound', 'implies(self.max_history_size is not None and self.max_history_size > 0, '
                                'len(self.event_history) == min(len(old(self.event_history)), self.max_history_size))', ['C13']),
                      ('no_limit_no_change', 'implies(self.max_history_size is None or self.max_history_size == 0, self.event_history == old(self.event_history))', ['C13']),
